@@ -21,9 +21,8 @@ PUBLIC INTERFACE
                canonical=None, min_nodes=0)
                                   -> generator of programs (tuples of statements), simplest
                                      first (by node count), deterministic order.
-                                     shard=(k, K): only programs whose FIRST top-level
-                                     statement has index = k mod K in the list of all
-                                     first statements (disjoint, exhaustive partition).
+                                     shard=(k, K): a disjoint, exhaustive, balanced partition
+                                     (index of first statement + index of the rest = k mod K).
                                      canonical=True keeps only programs whose pool
                                      variables first occur in pool order (a before b
                                      before c): one representative per variable
@@ -749,9 +748,10 @@ def programs(max_nodes, pool=POOL2, profile="mid", max_depth=3, shard=None, cano
     """Every program with min_nodes..max_nodes statement nodes and nesting <= max_depth over the
     profile's alphabet, simplest (fewest nodes) first, in a fixed order.
 
-    shard=(k, K) selects the programs whose first top-level statement has index = k (mod K)
-    among all first statements of its size (the empty program belongs to shard 0); the
-    shards are disjoint and their union is the whole space."""
+    shard=(k, K) selects the programs (first statement, rest) with index(first) + index(rest)
+    = k (mod K), indices taken in the lists of all first statements / all rests of that size
+    (the empty program belongs to shard 0); the shards are disjoint, balanced, and their
+    union is the whole space."""
     en = _enum(pool, profile, max_depth)
     k0, K = shard if shard is not None else (0, 1)
     if canonical is None:
@@ -764,12 +764,12 @@ def programs(max_nodes, pool=POOL2, profile="mid", max_depth=3, shard=None, cano
         for k in range(1, total + 1):
             firsts = en.stmts(k, TOP)
             rests = en.lists(total - k, TOP)
-            for i in range(k0, len(firsts), K):
-                first = firsts[i]
+            nr = len(rests)
+            for i, first in enumerate(firsts):
                 if canonical and not is_canonical((first,), pool):
                     continue
-                for rest in rests:
-                    prog = (first,) + rest
+                for j in range((k0 - i) % K, nr, K):
+                    prog = (first,) + rests[j]
                     if canonical and not is_canonical(prog, pool):
                         continue
                     yield prog
